@@ -11,6 +11,7 @@
 // Bound: dst of exactly N bytes (N in the harness name: no full word / one word + every tail length /
 // two words), symbolic src (every alignment), symbolic interval.
 use super::*;
+extern crate alloc;
 
 static mut LO: usize = 0;
 static mut HI: usize = 0;
@@ -98,3 +99,59 @@ fn vk_read_to_vec_len_matches() {
         Err(e) => { core::mem::forget(e); }
     }
 }
+
+// ---------------------------------------------------------------------------
+// [C] MemReader::read, strategy selection (C17): with the three strategies stubbed, the first one that
+// succeeds is remembered and its result returned; when none succeeds the reader becomes Unavailable and stays
+// so (the ptrace error is reported); a pre-selected strategy is the only one used.
+// ---------------------------------------------------------------------------
+static mut VMEM_OK: bool = false;
+static mut PTRACE_OK: bool = false;
+static mut CALLS_VMEM: u8 = 0;
+static mut CALLS_PTRACE: u8 = 0;
+
+fn g_vmem(_pid: nix::unistd::Pid, _src: usize, dst: &mut [u8]) -> Result<usize, nix::Error> {
+    unsafe { CALLS_VMEM += 1; if VMEM_OK { Ok(dst.len()) } else { Err(nix::Error::ENOSYS) } }
+}
+fn g_ptrace(_pid: nix::unistd::Pid, _src: usize, dst: &mut [u8]) -> Result<usize, (nix::Error, usize)> {
+    unsafe { CALLS_PTRACE += 1; if PTRACE_OK { Ok(dst.len()) } else { Err((nix::Error::EPERM, 0)) } }
+}
+fn g_open<P: AsRef<std::path::Path>>(_p: P) -> std::io::Result<std::fs::File> {
+    Err(std::io::Error::from_raw_os_error(13))
+}
+
+#[kani::proof]
+#[kani::stub(MemReader::vmem, g_vmem)]
+#[kani::stub(MemReader::ptrace, g_ptrace)]
+#[kani::stub(std::fs::File::open, g_open)]
+#[kani::stub(alloc::fmt::format, g_fmt)]
+#[kani::unwind(4)]
+fn vk_read_strategy_selection() {
+    unsafe { VMEM_OK = kani::any(); PTRACE_OK = kani::any(); }
+    let (v, p) = unsafe { (VMEM_OK, PTRACE_OK) };
+    let mut r = MemReader::new(1);
+    let mut dst = [0u8; 4];
+    let first = r.read(0x1000, &mut dst);
+    match &first {
+        Ok(n) => { assert!(*n == 4 && (v || p)); }
+        Err(_) => { assert!(!v && !p); }
+    }
+    match (&r.style, v, p) {
+        (Some(Style::VirtualMem), true, _) => {}
+        (Some(Style::Ptrace), false, true) => {}
+        (Some(Style::Unavailable { .. }), false, false) => {}
+        _ => assert!(false, "the first strategy that works is the one remembered"),
+    }
+    core::mem::forget(first);
+    // second read: only the remembered strategy is used
+    let (cv, cp) = unsafe { (CALLS_VMEM, CALLS_PTRACE) };
+    let second = r.read(0x2000, &mut dst);
+    unsafe {
+        if v { assert!(CALLS_VMEM == cv + 1 && CALLS_PTRACE == cp && second.is_ok()); }
+        else if p { assert!(CALLS_VMEM == cv && CALLS_PTRACE == cp + 1 && second.is_ok()); }
+        else { assert!(CALLS_VMEM == cv && CALLS_PTRACE == cp && second.is_err()); }   // Unavailable is sticky
+    }
+    core::mem::forget(second);
+    core::mem::forget(r);
+}
+fn g_fmt(_a: core::fmt::Arguments<'_>) -> String { String::new() }
